@@ -1,6 +1,7 @@
 (* C14 — Colour-space metadata stays consistent with the pixel format.
    PROVED on the model of preprocess_chunks / postprocess_chunks (for every zlib oracle):
-   the complete decision table (C14_decision_table), and its reading in the words of the property. *)
+   the complete decision table (C14_decision_table), and its reading in the words of the property.
+   DOWN TO WHAT IS WRITTEN (end of this file): grayness of the image written under a kept profile / sRGB tag; no sRGB / iCCP chunk after a move. *)
 From OxiVerif Require Import Base.Common Model.Types Model.Options Model.Headers Proofs.ChunkProofs.
 
 (* preprocess_chunks is exactly: apply the ICC decision to the chunk list, and switch off
